@@ -150,3 +150,11 @@ claim("C17", "DESIGN.md 5/C17",
       "every byte once) with the headings / dividers of the stand-alone formatters; parse_dump_file on renderings of "
       "23..180 byte dumps in both hex formats (either digit case, cut / padded last line, last byte symbolic) must "
       "hand over the same slices as the raw bytes; empty input gives no output. 42 cases, each 'Confirmed over all paths'.")
+
+claim("C20", "DESIGN.md 5/C20",
+      "ParserData.get_signature (and, through it, the SRC parser on words 6..8 and the signature-list parser) is "
+      "executed with one of the twelve signature bytes symbolic at a time, with and without a chip data fixture and with "
+      "symbolic hex-digit case: chip position, node, attention type, signature id, instance and bit must come from "
+      "exactly their byte positions, names / descriptions from the fixture where present (case-insensitively) and raw "
+      "numbers otherwise, never an error; the register dump with symbolic data size 1..4, register instance, id byte and "
+      "a second chip; scratch registers, scratch signature and callout FFDC reproduce their encoded values.")
